@@ -770,6 +770,7 @@ func main() {
 			{3, 1, bounds{headers: true, maxIR: 0, maxRedeli: 0}, "B: headers+blocks, N<=3"},
 			{3, 1, bounds{headers: false, maxIR: 2, maxRedeli: 0}, "C: blocks + <=2 invalidate/reconsider, N<=3"},
 			{5, 1, bounds{maxIR: 1, parentsFirst: true, connectOnly: true, twoBranch: true, exactN: true}, "C5: N=5 two-branch trees, <=1 connect-invalid block, parents-first deliveries + 1 invalidate/reconsider"},
+			{3, 0, bounds{headers: true, maxIR: 2, parentsFirst: true, exactN: true}, "BC3: N=3 all-valid trees, headers + parents-first block deliveries + <=2 invalidate/reconsider"},
 		}
 		r.SetBudget(5 * time.Minute)
 	}
